@@ -27,7 +27,7 @@ import (
 )
 
 // number of INPUT fields (after the op name) of each operation
-var nInputs = map[string]int{"C07.len": 4, "C07.sup": 3, "C07.depth": 5, "C07.depthraw": 5, "C07.remove": 4, "C07.resolve": 2, "C07.depthstale": 7, "C07.cmd": 5}
+var nInputs = map[string]int{"C07.len": 4, "C07.sup": 3, "C07.depth": 5, "C07.depthraw": 5, "C07.remove": 4, "C07.resolve": 2, "C07.depthstale": 7, "C07.cmd": 5, "C07.seq": 2}
 
 type request struct {
 	op  string // without @cli
@@ -356,6 +356,12 @@ func paramVariants(r request) []request {
 				v += s + ","
 			}
 			out = append(out, r.with(2, v))
+		}
+	case "C07.seq":
+		steps := strings.Split(r.f[0], ";")
+		for i := 0; i+1 < len(steps); i++ { // drop an earlier step
+			rest := append(append([]string{}, steps[:i]...), steps[i+1:]...)
+			out = append(out, r.with(0, strings.Join(rest, ";")))
 		}
 	case "C07.resolve":
 		for _, v := range []string{"1", "2", "3", "4", "5"} {
